@@ -271,6 +271,25 @@ class Ops(object):
             if name == '__class__':
                 return obj.cls
             c, m = obj.cls.find_method(name)
+            if m is not None and name in ('items', 'keys', 'values') and c.module is not None and c.module.name.startswith('stdlib.'):
+                # A-bi-mappingviews: Mapping.keys()/items()/values() iterate iter(self) and self[key]
+                def view(it2, args, kw, obj=obj, name=name):
+                    ks = self.iter_view(it2, obj)
+                    if not isinstance(ks, list):
+                        if name == 'keys':
+                            return ks
+                        if isinstance(ks, (SSeq, SView)):
+                            src = ks
+                            if name == 'values':
+                                return SView(src.length, lambda it3, i: self.getitem(it3, obj, self.seq_elem(it3, src, i)))
+                            return SView(src.length, lambda it3, i: (self.seq_elem(it3, src, i), self.getitem(it3, obj, self.seq_elem(it3, src, i))))
+                        raise OutOfSubset('mapping view over %r' % (ks,))
+                    if name == 'keys':
+                        return list(ks)
+                    if name == 'values':
+                        return [self.getitem(it2, obj, k) for k in ks]
+                    return [(k, self.getitem(it2, obj, k)) for k in ks]
+                return Builtin('Mapping.' + name, view)
             if m is not None:
                 decs = [ast.unparse(d) for d in m.decorator_list]
                 clo = w.method_closure(c, m)
@@ -609,6 +628,11 @@ class Ops(object):
                   'MatMult': 'matmul'}
 
     def binop(self, it, op, a, b, inplace=False):
+        h = self.world.hooks.get('binop')
+        if h is not None:
+            r = h(it, op, a, b)
+            if r is not NotImpl:
+                return r
         if op == 'Mod' and isinstance(a, str) and has_sym(b):
             return '<formatted message>'       # str % args: text of messages is not modelled (A-py-format: never raises for %s/%r)
         # user-defined operator methods (A-disp: left operand first, reflected on NotImplemented)
